@@ -77,9 +77,9 @@ CHECKS.update({
             "technique": "TLA+ specification whose actions have only ok/err outcomes (spec/Trace_Total.tla, Trace_Eval.tla with ONLYCRASH, Trace_Parse.tla) + TLC trace validation of recorded executions of the real API"},
 })
 CHECKS.update({
-    "C11": {"text": "Spec -> implementation: TLC enumerates every history of length 6 (thorough: 7) of the Api state machine over {new/clone context, add/replace program, new/clone bindings, bind/rebind, exec} "
+    "C11": {"text": "Spec -> implementation: TLC enumerates every history of length 6 (thorough: 7) of the Api state machine over {new/clone context, add/replace program, new/clone bindings, bind/rebind, exec} and every history of length 5 (thorough: 6) of the same machine with user functions (bind/rebind function) and serialization round trips of stored programs into any context "
                     "(checking ExecFunctional and the purity/clone action properties in every state) and each history is replayed through the real API. Implementation -> spec: random histories of 10-200 calls, sequentially and on 16 threads at once. "
-                    "After every call the recorded objects (sources by name, values by name) must equal the specification's state - so exec changes nothing, clones are independent, add/bind replace - and every exec outcome must be one Eval allows for the current state only.",
+                    "After every call the recorded objects (sources by name, values by name, user functions by name) must equal the specification's state - so exec changes nothing, clones are independent, add/bind replace - and every exec outcome must be one Eval allows for the current state only.",
             "note": "Trusted: the harness' read-back of contexts/bindings through get_program/get_param. Thread schedules are sampled by the OS, not enumerated.",
             "technique": "TLA+ history machine (spec/Api.tla): TLC-generated histories replayed into the real API (spec/Gen_Api.tla) and recorded histories validated by TLC (spec/Trace_Api.tla)"},
 })
